@@ -169,7 +169,7 @@ pub fn atom_in_world(a: &Atom, w: &World) -> bool {
             }
         }
         Atom::After(n) => check_locktime_raw(w.lock_time, w.sequence, *n as i64),
-        Atom::Older(n) => (*n & (1 << 31)) != 0 || check_sequence_raw(2, w.sequence, *n as i64),
+        Atom::Older(n) => (*n & (1 << 31)) != 0 || check_sequence_raw(w.tx_version, w.sequence, *n as i64),
     }
 }
 
